@@ -233,4 +233,145 @@ Proof.
       destruct q; [tauto|]. destruct cs; [|tauto]. destruct Hm as [-> | ->]; tauto.
 Qed.
 
+(* ---- a whole text: rows of flagged fields, each followed by the line terminator *)
+
+Definition rows_text (term : str) (frows : list (list (bool * str))) : str :=
+  concat (map (fun fs => row_text fs ++ term) frows).
+
+(* a row the writer may emit: every field well-formed, and never a lone bare empty field
+   (the writer emits [""] for it: csv_writerow's "single empty field" rule) *)
+Definition frow_ok (fs : list (bool * str)) : Prop := Forall field_ok fs /\ fs <> [(false, [])].
+
+Lemma run_rows frows : forall out term,
+  is_term term -> Forall frow_ok frows ->
+  run' r0 out (rows_text term frows) = Ok (rev out ++ map (map snd) frows).
+Proof.
+  induction frows as [|fs rest IH]; intros out term Ht Hok.
+  - cbn. rewrite frev_rev, app_nil_r. reflexivity.
+  - inversion Hok as [|fs' rest' [Hfs Hne] Hrest]; subst.
+    unfold rows_text. cbn [map concat]. fold (rows_text term rest). rewrite <- app_assoc.
+    destruct fs as [|p fs].
+    + change (row_text []) with (@nil char). cbn [app]. unfold r0.
+      rewrite run_term_empty by exact Ht. rewrite IH by assumption.
+      cbn [rev map]. rewrite <- app_assoc. reflexivity.
+    + unfold r0 at 1. rewrite run_fields; [|discriminate|left; reflexivity|exact Hfs|exact Ht|intros [_ E]; exact (Hne E)].
+      rewrite IH by assumption. rewrite app_nil_r, frev_rev, rev_involutive.
+      cbn [rev map]. rewrite <- app_assoc. reflexivity.
+Qed.
+
+(* ---- the writer emits such a text *)
+
+Lemma existsb_ext' {A} (f g : A -> bool) l : (forall x, f x = g x) -> existsb f l = existsb g l.
+Proof. intros H. induction l as [|x l IH]; cbn; [reflexivity|]. rewrite H, IH. reflexivity. Qed.
+
+Lemma existsb_false_forallb {A} (f : A -> bool) l : existsb f l = false -> forallb (fun x => negb (f x)) l = true.
+Proof.
+  induction l as [|x l IH]; cbn; [reflexivity|]. intros H. apply orb_false_iff in H. destruct H as [H1 H2].
+  rewrite H1, IH by exact H2. reflexivity.
+Qed.
+
+Section Writer.
+Variable term : str.
+Hypothesis Hterm : term = [c_cr; c_lf].
+
+Lemma needs_quote_special c : needs_quote delim quote term c = special c.
+Proof.
+  unfold needs_quote, special. f_equal. subst term. unfold mem_char, is_nl.
+  rewrite orb_false_r, orb_comm. rewrite (N.eqb_sym c_lf c), (N.eqb_sym c_cr c). reflexivity.
+Qed.
+
+Definition flag_field (s : str) : bool * str := (existsb special s, s).
+
+Definition flag_row (r : list str) : list (bool * str) :=
+  match r with
+  | [[]] => [(true, [])]
+  | _ => map flag_field r
+  end.
+
+Lemma write_field_flag s : write_field delim quote term s = wfield (flag_field s).
+Proof.
+  unfold write_field, wfield, flag_field. cbn [fst snd].
+  rewrite (existsb_ext' _ _ s needs_quote_special). reflexivity.
+Qed.
+
+Lemma wfield_nonnil p : p <> (false, []) -> wfield p <> [].
+Proof.
+  destruct p as [q s]. unfold wfield. cbn [fst snd]. destruct q; [discriminate|].
+  destruct s; [congruence|discriminate].
+Qed.
+
+Lemma row_text_nonnil fs : fs <> [] -> fs <> [(false, [])] -> row_text fs <> [].
+Proof.
+  intros H1 H2. destruct fs as [|p fs]; [congruence|]. unfold row_text. cbn [map join_char].
+  destruct fs as [|p2 fs].
+  - apply wfield_nonnil. intros E. apply H2. rewrite E. reflexivity.
+  - cbn [map]. intros E. apply app_eq_nil in E. destruct E as [_ E]. discriminate.
+Qed.
+
+Lemma map_wfield_flag r : map (write_field delim quote term) r = map wfield (map flag_field r).
+Proof. rewrite map_map. apply map_ext. exact write_field_flag. Qed.
+
+Lemma match_nonnil (b x : str) : b <> [] -> match b with [] => x | _ :: _ => b ++ term end = b ++ term.
+Proof. destruct b; [congruence|reflexivity]. Qed.
+
+Lemma write_row_flag r : write_row delim quote term r = row_text (flag_row r) ++ term.
+Proof.
+  unfold write_row. rewrite map_wfield_flag. fold (row_text (map flag_field r)).
+  destruct r as [|s r]; [reflexivity|].
+  destruct s as [|c s].
+  - destruct r as [|s2 r]; [reflexivity|].
+    unfold flag_row. apply match_nonnil. apply row_text_nonnil; discriminate.
+  - unfold flag_row. apply match_nonnil.
+    apply row_text_nonnil; [discriminate|]. cbn [map]. unfold flag_field at 1. intros E. inversion E.
+Qed.
+
+Lemma csv_write_flag rows : csv_write delim quote term rows = rows_text term (map flag_row rows).
+Proof.
+  unfold csv_write, rows_text. rewrite map_map. f_equal. apply map_ext. exact write_row_flag.
+Qed.
+
+Lemma snd_flag_row r : map snd (flag_row r) = r.
+Proof.
+  destruct r as [|s r]; [reflexivity|]. destruct s as [|c s].
+  - destruct r as [|s2 r]; [reflexivity|]. unfold flag_row. rewrite map_map. cbn [flag_field snd]. apply map_id.
+  - unfold flag_row. rewrite map_map. cbn [flag_field snd]. apply map_id.
+Qed.
+
+Definition len_ok (s : str) : Prop := N.of_nat (length s) <= lim.
+
+Lemma field_ok_flag s : len_ok s -> field_ok (flag_field s).
+Proof.
+  intros H. unfold field_ok, flag_field. cbn [fst snd]. split; [exact H|].
+  destruct (existsb special s) eqn:E; [left; reflexivity|right; apply existsb_false_forallb, E].
+Qed.
+
+Lemma frow_ok_flag r : Forall len_ok r -> frow_ok (flag_row r).
+Proof.
+  intros H. unfold frow_ok.
+  assert (Hm : Forall field_ok (map flag_field r)).
+  { apply Forall_map. revert H. apply Forall_impl. exact field_ok_flag. }
+  destruct r as [|s r]; [split; [constructor|discriminate]|].
+  destruct s as [|c s].
+  - destruct r as [|s2 r].
+    + cbn. split; [|discriminate]. constructor; [|constructor]. split; [|left; reflexivity].
+      cbn. apply N.le_0_l.
+    + split; [exact Hm|discriminate].
+  - split; [exact Hm|]. cbn. intros E. inversion E.
+Qed.
+
+(* the codec theorem: the reader undoes the writer on every list of rows of arbitrary
+   strings; the only side condition is the reader's field size limit *)
+Theorem csv_roundtrip_gen rows :
+  Forall (Forall len_ok) rows ->
+  csv_read delim quote lim (csv_write delim quote term rows) = Ok rows.
+Proof.
+  intros H. unfold csv_read. rewrite csv_write_flag.
+  rewrite run_rows.
+  - cbn [rev app]. f_equal. rewrite map_map. rewrite <- (map_id rows) at 2. apply map_ext. exact snd_flag_row.
+  - left. exact Hterm.
+  - apply Forall_map. revert H. apply Forall_impl. exact frow_ok_flag.
+Qed.
+
+End Writer.
+
 End CsvFacts.
